@@ -23,7 +23,8 @@ import (
 )
 
 type c15Op struct {
-	Op     string `json:"op"` // append | remove | create | pause (append Data, then the consumer stays outside Read once it has delivered everything) | resume
+	Name   string `json:"name,omitempty"` // op sibling: the other directory entry, relative to the followed file's directory
+	Op     string `json:"op"` // sibling (Data = make-remove | write | rename | dir; another entry of the directory, never the followed path) | append | remove | create | pause (append Data, then the consumer stays outside Read once it has delivered everything) | resume
 	Data   string `json:"data_hex,omitempty"`
 	WaitUs int    `json:"wait_us"` // sleep before the operation
 	Sync   bool   `json:"sync"`    // wait until everything written so far was delivered, before the operation
@@ -41,7 +42,7 @@ type c15In struct {
 	Via      string  `json:"via,omitempty"` // "" = followreader.New directly; "batcher" = batchers.TailFilesToChan (batch size 1)
 }
 type c15Ent struct {
-	K int    `json:"k"` // 0 append 1 remove 2 create 3 data 4 eof
+	K int    `json:"k"` // 0 append 1 remove 2 create 3 data 4 eof 5 sibling activity
 	D string `json:"d,omitempty"`
 }
 type c15Out struct {
@@ -123,6 +124,39 @@ func followPath(dir, form string, writer *string) (string, error) {
 	}
 	return "", fmt.Errorf("unknown path form %q", form)
 }
+
+// siblingAct touches another entry of the followed file's directory (errors are ignored: it is noise).
+func siblingAct(dir, action, name string) {
+	p := filepath.Join(dir, name)
+	write := func(q string) {
+		os.MkdirAll(filepath.Dir(q), 0o755)
+		if f, err := os.OpenFile(q, os.O_CREATE|os.O_APPEND|os.O_WRONLY, 0o644); err == nil {
+			f.Write([]byte("sibling\n"))
+			f.Close()
+		}
+	}
+	switch action {
+	case "write":
+		write(p)
+	case "make-remove":
+		write(p)
+		os.Remove(p)
+	case "rename":
+		write(p)
+		q := filepath.Join(filepath.Dir(p), "moved-"+filepath.Base(p))
+		os.Rename(p, q)
+		os.Remove(q)
+	case "dir":
+		os.MkdirAll(p, 0o755)
+		write(filepath.Join(p, "followed.log"))
+		os.RemoveAll(p)
+	}
+}
+
+// names related to the followed name "followed.log": it is a proper suffix / prefix of them, or they are the same
+// name one level down
+var siblingNames = []string{"old-followed.log", "xfollowed.log", "followed.log.1", "followed.log~", "followed",
+	"sibdir/followed.log", "followed.log.d"}
 
 var pathForms = []string{"clean", "dot", "dslash", "updown", "relative", "dotrel", "symdir"}
 
@@ -351,6 +385,11 @@ func c15Run(in c15In) (out c15Out) {
 				atomic.StoreInt32(&pauseReq, 0)
 				resumeCh <- struct{}{}
 			}
+		case "sibling":
+			R.mu.Lock()
+			R.log = append(R.log, c15Ent{K: 5})
+			R.mu.Unlock()
+			siblingAct(filepath.Dir(path), op.Data, op.Name)
 		case "create":
 			R.mu.Lock()
 			R.log = append(R.log, c15Ent{K: 2})
@@ -422,7 +461,7 @@ func c15Case(in c15In) Case {
 	var hist []c15Ent
 	removes, creates, appends := 0, 0, 0
 	for _, e := range out.Log {
-		if e.K <= 2 {
+		if e.K <= 2 || e.K == 5 {
 			hist = append(hist, e)
 		}
 		switch e.K {
@@ -449,6 +488,12 @@ func c15Case(in c15In) Case {
 		pf = "clean"
 	}
 	tags := []string{"mode:" + mode, "class:" + in.Class, "path:" + pf}
+	for _, op := range in.Script {
+		if op.Op == "sibling" {
+			tags = append(tags, "siblings")
+			break
+		}
+	}
 	if in.Via != "" {
 		tags = append(tags, "via:"+in.Via)
 	}
@@ -688,6 +733,13 @@ func c15Plan(r *Rng, n int, notify bool) []c15In {
 		in := g.mk(c.name, c.poll, c.reopen, tail, r.Range(4, 24))
 		// every class meets every spelling of the path over the cycles (and over the seeds)
 		in.PathForm = pathForms[(i+i/len(classes)+formOff)%len(pathForms)]
+		// other entries of the directory are created / written / removed / renamed in between
+		for k := r.Range(1, 5); k > 0 && len(in.Script) < 34; k-- {
+			op := c15Op{Op: "sibling", Name: Pick(r, siblingNames), WaitUs: g.wait(),
+				Data: Pick(r, []string{"make-remove", "make-remove", "write", "rename", "dir"})}
+			at := r.Intn(len(in.Script) + 1)
+			in.Script = append(in.Script[:at], append([]c15Op{op}, in.Script[at:]...)...)
+		}
 		ins = append(ins, in)
 	}
 	return ins
@@ -740,6 +792,7 @@ func main() {
 			"(classes: in-place appends with seeded pauses 0..2.5 ms and occasional wait-for-drain; burst of back-to-back appends; removal after drain at the end (plain follow: EOF expected); " +
 			"rotation = remove after drain, re-create, append (polling: first append shorter than the removed file and drained before the next); file missing at start with re-open; " +
 			"every class x spelling of the followed path {clean absolute, dir/./f, dir//f, dir/sub/../f, relative to the working directory, ./relative, through a symlinked directory} (the writer uses the plain name); " +
+			"1..5 operations on OTHER entries of the directory (old-followed.log, xfollowed.log, followed.log.1, followed.log~, followed, sibdir/followed.log, directory followed.log.d: create+remove, write, rename, directory with a file) inserted at random positions of every script; " +
 			"double rotation remove/create/remove/create without pauses (an empty middle file: with notify re-open the domain of finding C15-notify-stale-delete); " +
 			"paused consumer: the consumer leaves Read after draining, the writer removes, re-creates and appends, the consumer resumes after 0.3..4 ms so that delete, create and write notifications are pending together and the select serves them in arbitrary order, 4 rounds per case) x {notify, poll} x {re-open, plain} x {tail, from start}, read buffer in {1,2,3,7,64,4096}. " +
 			"distinct = distinct (flags, initial content, script with timing); non-trivial = at least two appends or a removal. " +
